@@ -542,11 +542,14 @@ Varable failures: {var_failed}
                 if not (dt[0] == dt).all():
                     warn('New time is unstructured')
                 # HHMMSS where HH may exceed 23 (e.g., daily or longer steps)
+                # a negative step (a reversed window) is the negative of
+                # the HHMMSS of its magnitude, as getTimes decodes it
                 dtsec = int(round(dt[0].total_seconds()))
+                adtsec = abs(dtsec)
                 outf.TSTEP = (
-                    (dtsec // 3600) * 10000 + (dtsec % 3600 // 60) * 100
-                    + dtsec % 60
-                )
+                    (adtsec // 3600) * 10000 + (adtsec % 3600 // 60) * 100
+                    + adtsec % 60
+                ) * (-1 if dtsec < 0 else 1)
 
         outf.updatemeta()
         return outf
